@@ -6,6 +6,8 @@
 // case line:  F<0|1> N=<name0>,<name1>,... <op> <op> ...
 //   S:i:t:hex           complete save          K:i:t:hex:p0,p1,..  crashed save (per-sector progress, - = none)
 //   P:i:hex             raw file content       L:i:now  load       G:now  gc        X:i  remove
+//   T:i:t:n:iters:len   n writer and n reader threads hammer session i (values = one byte repeated, length depends on the byte), then remove and a
+//                       final save of "final": T=ok unless some load failed or returned a value no writer wrote
 //   V:hexcookie         session_sid::valid_sid                      Q:now:hexcookie  session_sid::load (valid_sid + load + expiry re-check)
 // answer: one token per op:  <result>{i=len.crc32,...}   (directory summary after the op, crc32 by own bitwise code)
 #include "session_posix_file_storage.h"
@@ -29,6 +31,7 @@
 #include <string.h>
 #include <time.h>
 #include <ctype.h>
+#include <pthread.h>
 #include <algorithm>
 #include "hexio.h"
 using namespace hx;
@@ -145,6 +148,29 @@ public:
 	virtual std::set<std::string> get_cookie_names() { return std::set<std::string>(); }
 };
 
+struct targ { cppcms::sessions::session_storage *st; std::string sid; time_t t; int k, iters, len; long bad_none, bad_mixed; };
+static std::string tval(int k, int len) { return std::string(size_t(len + 37 * k), char('A' + k)); }
+static void *t_writer(void *p)
+{
+	targ *a = static_cast<targ *>(p);
+	std::string v = tval(a->k, a->len);
+	for(int i = 0; i < a->iters; i++) a->st->save(a->sid, a->t, v);
+	return 0;
+}
+static void *t_reader(void *p)
+{
+	targ *a = static_cast<targ *>(p);
+	for(int i = 0; i < a->iters; i++) {
+		time_t t = 0; std::string d;
+		if(!a->st->load(a->sid, t, d)) { a->bad_none++; continue; }
+		bool ok = t == a->t && !d.empty();
+		for(size_t j = 1; ok && j < d.size(); j++) if(d[j] != d[0]) ok = false;
+		if(ok) { int k = d[0] - 'A'; ok = k >= 0 && k < 26 && d.size() == size_t(a->len + 37 * k); }
+		if(!ok) a->bad_mixed++;
+	}
+	return 0;
+}
+
 int main()
 {
 	char const *base = getenv("C18_DIR");
@@ -219,6 +245,27 @@ int main()
 					g_now = (time_t)strtoll(a[1].c_str(), 0, 10);
 					fact.gc_job();
 					out << 'G';
+				}
+				else if(op == 'T' && a.size() == 6) {
+					size_t i = atoi(a[1].c_str()); if(i >= names.size() || !valid32(names[i])) throw 1;
+					time_t t = (time_t)strtoll(a[2].c_str(), 0, 10);
+					int n = atoi(a[3].c_str()), iters = atoi(a[4].c_str()), len = atoi(a[5].c_str());
+					if(n < 1 || n > 8 || iters < 1 || len < 1) throw 1;
+					g_now = t > 1000 ? t - 1000 : 0;
+					st->save(names[i], t, tval(0, len));
+					std::vector<targ> ta(2 * n);
+					std::vector<pthread_t> th(2 * n);
+					for(int k = 0; k < 2 * n; k++) {
+						targ x = { st.get(), names[i], t, k % n, iters, len, 0, 0 };
+						ta[k] = x;
+						pthread_create(&th[k], 0, k < n ? t_writer : t_reader, &ta[k]);
+					}
+					long bn = 0, bm = 0;
+					for(int k = 0; k < 2 * n; k++) { pthread_join(th[k], 0); bn += ta[k].bad_none; bm += ta[k].bad_mixed; }
+					// the bytes behind the last record depend on the interleaving (no truncation): start from a fresh file for a deterministic end state
+					st->remove(names[i]);
+					st->save(names[i], t, "final");
+					if(bn == 0 && bm == 0) out << "T=ok"; else out << "T=bad(none=" << bn << ",mixed=" << bm << ")";
 				}
 				else if(op == 'V' && a.size() == 2) {
 					cppcms::sessions::session_sid sid(st);
